@@ -340,6 +340,52 @@ inline void arm_stalls(Rng& r, std::initializer_list<uint32_t> ids, bool allow_s
     photon::verif::g_hooks.point = &stall_handler;
 }
 
+// per-OS-thread scheduler state and CPU ticks used over a 300 ms window: tells a sleeping deadlock
+// (all S, no CPU) from a spinning one or from plain starvation on a loaded machine
+inline std::string os_threads_snapshot(uint64_t* total_ticks = nullptr) {
+    auto read_all = [](std::map<int, std::pair<char, uint64_t>>& m) {
+        char path[64];
+        for (int pass = 0; pass < 1; ++pass) {
+            FILE* d = popen("ls /proc/self/task 2>/dev/null", "r");
+            if (!d) return;
+            int tid;
+            std::vector<int> tids;
+            while (fscanf(d, "%d", &tid) == 1) tids.push_back(tid);
+            pclose(d);
+            for (int t : tids) {
+                snprintf(path, sizeof(path), "/proc/%d/task/%d/stat", getpid(), t);
+                FILE* f = fopen(path, "r");
+                if (!f) continue;
+                char buf[1024];
+                size_t n = fread(buf, 1, sizeof(buf) - 1, f);
+                fclose(f);
+                buf[n] = 0;
+                char* rp = strrchr(buf, ')');
+                if (!rp) continue;
+                char state = 0;
+                unsigned long ut = 0, stt = 0;
+                // after ") ": state ppid pgrp session tty tpgid flags minflt cminflt majflt cmajflt utime stime
+                sscanf(rp + 2, "%c %*d %*d %*d %*d %*d %*u %*u %*u %*u %*u %lu %lu", &state, &ut, &stt);
+                m[t] = {state, ut + stt};
+            }
+        }
+    };
+    std::map<int, std::pair<char, uint64_t>> a, b;
+    read_all(a);
+    struct timespec ts = {0, 300 * 1000 * 1000};
+    nanosleep(&ts, nullptr);
+    read_all(b);
+    JArr arr;
+    uint64_t total = 0;
+    for (auto& kv : b) {
+        uint64_t d = a.count(kv.first) ? kv.second.second - a[kv.first].second : 0;
+        total += d;
+        arr.raw(JObj().kv("tid", kv.first).kv("state", std::string(1, kv.second.first)).kv("cpu_ticks_in_300ms", d).str());
+    }
+    if (total_ticks) *total_ticks = total;
+    return arr.str();
+}
+
 // ------------------------------------------------------------------ supervisor (stuck detector)
 // on_stuck(key, what, witness) is called from the supervisor OS thread when the
 // progress counter has not moved for silence_ms. It evaluates the property's
@@ -358,9 +404,17 @@ inline void supervisor_main() {
         if (p != last) { last = p; last_change = t1; continue; }
         if ((t1 - last_change) / 1000000 < S.silence_ms) continue;
         if (S.supervisor_stop.load()) break;
+        // Threads that burn CPU without completing an operation are either spinning on something that never
+        // comes or merely starved on a loaded machine: give that case six times the silence window. A process
+        // whose threads all sleep cannot be starved, so the plain window is enough there.
+        uint64_t ticks = 0;
+        std::string osth = os_threads_snapshot(&ticks);
+        if (ticks > 3 && (mono_ns() - last_change) / 1000000 < 6 * S.silence_ms) continue;
+        if (S.progress.load(MO) != p) continue;
         std::string key, what, wit = "null";
         bool proved = S.on_stuck ? S.on_stuck(key, what, wit) : false;
         if (S.supervisor_stop.load() || S.progress.load(MO) != p) { last_change = mono_ns(); continue; }
+        wit = JObj().raw("ledger", wit).raw("os_threads", osth).str();
         if (proved) {
             violation(key, what, wit);
             S.status = "ok";
